@@ -1,4 +1,4 @@
-"""C19 -- pattern matching and restructuring (clauses R19.1-R19.5)."""
+"""C19 -- pattern matching and restructuring (clauses R19.1-R19.6)."""
 from __future__ import annotations
 
 import ast
@@ -15,7 +15,8 @@ EXPLANATION = (
     "ast.iter_fields filtering only expr_context, and has a rejecting exit for class, child count, list length, "
     "scalar value and recursive mismatch.  R19.4: in the statement-replacement loop an overlapping match can reach "
     "add_change only through the expression-mode edge, and last_end is updated before every add_change.  R19.5: every accepting path of the default wildcard (or the matcher "
-    "before it) crosses an isinstance(node, ast.*) test, so a wildcard is never bound to an empty optional field.  "
+    "before it) crosses an isinstance(node, ast.*) test, so a wildcard is never bound to an empty optional field.  R19.6: no type filter in front of the statement-list scan "
+    "excludes a constructor that owns a statement suite in the interpreter's grammar (ExceptHandler, match_case included).  "
     "Completeness of reported matches and meaning-preserving substitution are not decided."
 )
 ASSUMPTIONS = ["node.region is exact (rests on C08)"]
@@ -118,6 +119,7 @@ def matcher_rule(ctx, res, rule: str) -> None:
 def check(ctx, res) -> None:
     _check_main(ctx, res)
     _wildcard_node_rule(ctx, res)
+    _suite_owner_rule(ctx, res)
 
 
 def _check_main(ctx, res) -> None:
@@ -326,3 +328,45 @@ def _wildcard_node_rule(ctx, res) -> None:
             "the default wildcard accepts a candidate without testing that it is a syntax node (a path returns True with no isinstance(node, ast.*) "
             "test on it, here or in the matcher): for an optional field left empty in the code (bare `return`, `a[:]`, `assert c`) the wildcard is bound to "
             "None and a non-instance is reported as a match", function=m.qualname, required=sorted(required))
+
+
+def _suite_owner_rule(ctx, res) -> None:
+    """R19.6: "every instance in the region is reported" needs the statement matcher to slide over EVERY statement
+    suite.  Suites belong to the constructors with a `stmt*` field in the interpreter's grammar -- among them
+    ExceptHandler and match_case, which are neither `stmt` nor `mod`.  Any isinstance filter in front of the scan over a
+    node's list fields must admit every one of them (decided with the real class hierarchy of the running `ast`)."""
+    import ast as _ast
+    from ..grammar import G
+
+    idx = ctx.idx
+    f = idx.need_func("rope.refactor.similarfinder._ASTMatcher._check_statements")
+    owners = sorted({c for c, _ in G.stmt_list_fields()})
+    cfg = CFG(f.node)
+    scans = [nd for nd in cfg.nodes if nd.kind == "loop" and isinstance(nd.ast, ast.For) and any(
+        isinstance(c, ast.Call) and call_name(c) == "iter_fields" for c in ast.walk(nd.ast.iter))]
+    if not scans:
+        raise AnalysisError("anchor=_ASTMatcher._check_statements: loop over ast.iter_fields(node) not found")
+    p = param_names(f.node)[1]
+    for k, nd in enumerate(scans, 1):
+        missing: Set[str] = set()
+        filt = None
+        for t, pol in cfg.guards(nd.id):
+            if isinstance(t, ast.Call) and call_name(t) == "isinstance" and len(t.args) == 2 and isinstance(t.args[0], ast.Name) and t.args[0].id == p:
+                ks = t.args[1].elts if isinstance(t.args[1], ast.Tuple) else [t.args[1]]
+                classes = tuple(getattr(_ast, (e.attr if isinstance(e, ast.Attribute) else getattr(e, "id", "")), None) for e in ks)
+                if any(c is None for c in classes):
+                    res.undecided("R19.6", f"_check_statements|suite-owners#{k}", f"{f.unit.rel}:{t.lineno}", f"filter classes not resolved: {ast.unparse(t)}")
+                    filt = "unresolved"
+                    break
+                filt = t
+                for o in owners:
+                    admitted = issubclass(getattr(_ast, o), classes)
+                    if admitted != pol:
+                        missing.add(o)
+        if filt == "unresolved":
+            continue
+        res.add("R19.6", f"_check_statements|suite-owners#{k}", not missing, f"{f.unit.rel}:{nd.lineno}",
+                f"the scan over list fields runs for all {len(owners)} constructors that own a statement suite" if not missing else
+                f"_check_statements scans the list fields of a node only when `{ast.unparse(filt)}`, which excludes {sorted(missing)}: statement patterns "
+                "are never matched inside those suites (except-handler and case bodies), so instances there are not reported and not rewritten",
+                function=f.qualname, owners=owners)
